@@ -1034,3 +1034,7 @@ def run(ctx, shard):
                 with torch.no_grad():
                     model()
             ctx.hit('model/replayed-in-other-order')
+
+
+# thorough tier: every random shard is run this many times with independent random streams (see vmon/runner.py get_shards)
+THOROUGH_REPEAT = 3
